@@ -154,7 +154,7 @@ reg("C06", "c06", [("presentations", "plain", 3), ("names", "plain", 1), ("patte
     level_note="Trusts the planted constructions, numpy, and the weak-duality bracket derivation (DESIGN 4/C05).",
     design_ref="4/C06")
 
-reg("C10", "c10", [("faults", "plain", 3), ("domain", "plain", 1)], "fault_enumeration",
+reg("C10", "c10", [("faults", "plain", 9), ("domain", "plain", 3), ("restore", "plain", 4)], "fault_enumeration",
     rule="[for cpl/cp 'unknown' exits also the 'primal slack'/'dual slack' fields are recomputed from the returned snl, sl, znl, zl.] faults: Hypothesis draws an instance (conelp with/without start points, coneqp with/without initvals and the "
          "no-inequality branch, cpl with a quadratic constraint, cp with a quadratic objective; all cone structures, "
          "refinement 0/1/default); a fault-free instrumented run (kktsolver='ldl', misc.kkt_ldl wrapped) records every "
